@@ -1,5 +1,23 @@
-(* C07 — property theorems (bootstrap stage; see DESIGN.md section 6). *)
-From Verif Require Import Inflate.
-Theorem C07_spec_inflater_runs : status (inflate [] [3;0]) = Done /\ out (inflate [] [3;0]) = [].
-Proof. vm_compute. split; reflexivity. Qed.
-Print Assumptions C07_spec_inflater_runs.
+(* C07 — property theorems.  Model: RModel/Containers.v (RFC 1952 / RFC 1950 framing with Go's rules, CRC-32 and Adler-32 written out) over the reference inflater; compared with fastgo's gzip/zlib Readers and with the standard library's on every run.
+   Only statements, each closed by `exact`, followed by Print Assumptions. *)
+From Verif Require Import ContainersSpec ContainersProofs InflateMono.
+Open Scope N_scope.
+
+(* io.EOF only if every member read has a trailer equal to (CRC-32, length) of the bytes handed out *)
+Theorem C07_gz_eof_checked : gz_eof_checked_statement.
+Proof. exact gz_eof_checked. Qed.
+Print Assumptions C07_gz_eof_checked.
+
+Theorem C07_zl_eof_checked : zl_eof_checked_statement.
+Proof. exact zl_eof_checked. Qed.
+Print Assumptions C07_zl_eof_checked.
+
+(* a member cut short: nothing but a prefix of the payload, then io.ErrUnexpectedEOF (the empty
+   input is io.EOF: a shorter valid file) *)
+Theorem C07_gz_truncated : forall h body payload k, ghdr_ok h -> body_for body payload ->
+  let whole := gz_member h body payload in
+  (k < length whole)%nat ->
+  let r := gz_read true (firstn k whole) in
+  is_prefix (g_payload r) payload /\ (g_err r = CUnexpectedEOF \/ (k = 0%nat /\ g_err r = CEOF)).
+Proof. exact (gz_payload_prefix inflate_mono inflate_never_fuel). Qed.
+Print Assumptions C07_gz_truncated.
